@@ -5,6 +5,8 @@
 (*   - the slot table (fresh counter, name interning) is THREAD LOCAL       *)
 (*   - the symbol interner (GlobalSymbol) is GLOBAL: a symbol's index        *)
 (*     depends on who interned first                                         *)
+(*   - the wall clock is GLOBAL: how fast it advances depends on what the   *)
+(*     machine is doing; a saturation run looks at it (time limit)           *)
 (* The observable transcript of the main thread consists of slot names,     *)
 (* symbol TEXTS, class ids ...; never of interner indices.  Invariant: the  *)
 (* main thread's transcript after k operations is a function of its own     *)
@@ -12,41 +14,45 @@
 (***************************************************************************)
 EXTENDS Naturals, Sequences, FiniteSets, TLC
 
-CONSTANTS MainProg,    \* sequence of operations <<kind, arg>>: "fresh" | "named" | "sym" | "egraph"
-          NoiseProg
+CONSTANTS MainProg,    \* sequence of operations <<kind, arg>>: "fresh" | "named" | "sym" | "egraph" | "timed"
+          NoiseProg,
+          TimeLimit    \* of the "timed" operation (a saturation run with a time limit), in clock ticks
 
 VARIABLES pc,        \* [thread -> next operation index]
           ctr,       \* [thread -> thread-local fresh counter]
           names,     \* [thread -> thread-local sequence of interned slot names]
           syms,      \* GLOBAL sequence of interned symbols
           out,       \* [thread -> transcript]
-          sched      \* the interleaving so far (sequence of thread names)
+          sched,     \* the interleaving so far (sequence of thread names)
+          clock      \* GLOBAL wall clock: every operation of every thread takes one tick
 
-vars == <<pc, ctr, names, syms, out, sched>>
+vars == <<pc, ctr, names, syms, out, sched, clock>>
 Thr == {"main", "noise"}
 Prog(t) == IF t = "main" THEN MainProg ELSE NoiseProg
 
 Intern(seq, s) == IF \E i \in DOMAIN seq : seq[i] = s THEN seq ELSE Append(seq, s)
 
 (* what the thread observes for one operation, given ITS slot table *)
-Observe(op, c) ==
+Observe(op, c, clk) ==
   CASE op[1] = "fresh"  -> <<"slot-f", c>>
     [] op[1] = "named"  -> <<"slot-txt", op[2]>>
     [] op[1] = "sym"    -> <<"sym-text", op[2]>>
     [] op[1] = "egraph" -> <<"egraph-used-fresh", c>>      \* an e-graph operation draws fresh slots
+    [] op[1] = "timed"  -> <<"run-stopped", IF clk >= TimeLimit THEN "time" ELSE "limit-or-saturated">>
 
 Init == /\ pc = [t \in Thr |-> 1] /\ ctr = [t \in Thr |-> 0] /\ names = [t \in Thr |-> << >>]
-        /\ syms = << >> /\ out = [t \in Thr |-> << >>] /\ sched = << >>
+        /\ syms = << >> /\ out = [t \in Thr |-> << >>] /\ sched = << >> /\ clock = 0
 
 Step(t) ==
   /\ pc[t] <= Len(Prog(t))
   /\ LET op == Prog(t)[pc[t]] IN
-     /\ out' = [out EXCEPT ![t] = Append(@, Observe(op, ctr[t]))]
+     /\ out' = [out EXCEPT ![t] = Append(@, Observe(op, ctr[t], clock))]
      /\ ctr' = [ctr EXCEPT ![t] = IF op[1] = "fresh" THEN @ + 1 ELSE IF op[1] = "egraph" THEN @ + 2 ELSE @]
      /\ names' = [names EXCEPT ![t] = IF op[1] = "named" THEN Intern(@, op[2]) ELSE @]
      /\ syms' = IF op[1] = "sym" THEN Intern(syms, op[2]) ELSE syms
   /\ pc' = [pc EXCEPT ![t] = @ + 1]
   /\ sched' = Append(sched, t)
+  /\ clock' = clock + 1
 
 Next == \E t \in Thr : Step(t)
 Spec == Init /\ [][Next]_vars
@@ -55,9 +61,12 @@ Spec == Init /\ [][Next]_vars
 RECURSIVE Solo(_, _, _)
 Solo(prog, k, c) ==
   IF k > Len(prog) THEN << >>
-  ELSE <<Observe(prog[k], c)>> \o
+  ELSE <<Observe(prog[k], c, k - 1)>> \o
        Solo(prog, k + 1, IF prog[k][1] = "fresh" THEN c + 1 ELSE IF prog[k][1] = "egraph" THEN c + 2 ELSE c)
 
+(* holds because the time limit is beyond anything the clock reaches (FarLimit): a run whose  *)
+(* limit can be reached is not reproducible, and the property does not ask for it           *)
+FarLimit == TimeLimit > Len(MainProg) + Len(NoiseProg)
 Reproducible == out["main"] = SubSeq(Solo(MainProg, 1, 0), 1, pc["main"] - 1)
 (* the interner index of a symbol DOES depend on the schedule - which is why it must not be observable *)
 Done == pc["main"] > Len(MainProg) /\ pc["noise"] > Len(NoiseProg)
